@@ -367,7 +367,8 @@ class _BuiltinCmdToName(ast.NodeTransformer):
             and f.value.id == "__xonsh__"
             and len(node.args) == 1
             and isinstance(node.args[0], ast.Constant)
-            and node.args[0].value in BUILTIN_NAMES
+            and isinstance(node.args[0].value, str)
+            and node.args[0].value.isidentifier()  # only ever emitted for a bare name that is a builtin at compile time
         ):
             return ast.Name(id=node.args[0].value, ctx=ast.Load())
         return node
@@ -564,6 +565,166 @@ def eval_atomic_src(src, sess):
     }
 
 
+# ----------------------------------------------------------------------------- clause (h): session histories
+
+_ABSENT = object()
+
+
+def _run_seq(steps, sep, how):
+    """Run a history (c02_space.hist_steps) in ONE session: one world, one globals / locals pair, the
+    real `builtins` module (restored afterwards).  how: 'ref' = CPython exec, command-expected steps
+    skipped; 'xonsh' = the real Execer; 'xonsh-explicit' = the real Execer with command-expected
+    steps spelled ![...].  -> per step None | dict(exc, log, ns, spawns, tree)"""
+    w = World()
+    g, _ = w.namespaces({"globals": ["l", "m", "k"], "locals": []})
+    loc = {} if sep else g
+    names = sorted({st[2] for st in steps if st[0] != "src"} | set(S.HIST_NAMES))
+    saved = {nm: getattr(builtins, nm, _ABSENT) for nm in names}
+    for nm, v in saved.items():
+        if v is not _ABSENT:
+            delattr(builtins, nm)
+    captured = []
+    execer = None
+    if how != "ref":
+        from xonsh.built_ins import XSH
+
+        execer = XSH.execer
+        real_parse = execer.parse
+
+        def _parse(*a, **kw):  # Execer.compile calls self.parse: keep the tree it compiles
+            t = real_parse(*a, **kw)
+            captured.append(t)
+            return t
+
+        execer.parse = _parse
+    out = []
+    signal.signal(signal.SIGVTALRM, _alarm)
+    try:
+        for st in steps:
+            if st[0] in ("add", "rem"):
+                _, where, nm = st
+                if st[0] == "add":
+                    v = w.new(nm)
+                    if where == "B":
+                        setattr(builtins, nm, v)
+                    else:
+                        (g if where == "G" else loc)[nm] = v
+                elif where == "B":
+                    delattr(builtins, nm)
+                else:
+                    del (g if where == "G" else loc)[nm]
+                out.append(None)
+                continue
+            _, text, expect, expl = st
+            if how == "ref" and expect == "cmd":
+                out.append(None)
+                continue
+            src = expl if (how == "xonsh-explicit" and expect == "cmd") else text
+            n0 = len(w.log)
+            del SPAWNS[:]
+            del captured[:]
+            exc = None
+            signal.setitimer(signal.ITIMER_VIRTUAL, CPU_LIMIT_S)
+            try:
+                if how == "ref":
+                    exec(compile(src, FILENAME, "exec"), g, loc)
+                else:
+                    execer.exec(src, mode="exec", glbs=g, locs=loc, filename=FILENAME)
+            except _Timeout:
+                raise common.ToolError(f"no result within {CPU_LIMIT_S} CPU-seconds ({how}) for {src!r}") from None
+            except BaseException as e:  # noqa: BLE001
+                exc = type(e).__name__
+            finally:
+                signal.setitimer(signal.ITIMER_VIRTUAL, 0)
+            ns = _ns_summary(g, loc)
+            ns["b"] = {nm: tag_of(getattr(builtins, nm)) for nm in names if hasattr(builtins, nm)}
+            out.append({"exc": exc, "log": [list(x) for x in w.log[n0:]], "ns": ns, "spawns": list(SPAWNS), "tree": captured[-1] if captured else None})
+    finally:
+        if execer is not None:
+            del execer.parse
+        for nm, v in saved.items():
+            if v is _ABSENT:
+                if hasattr(builtins, nm):
+                    delattr(builtins, nm)
+            else:
+                setattr(builtins, nm, v)
+    return out
+
+
+def _brief_step(r):
+    return None if r is None else {"exception": r["exc"], "log": r["log"][:12], "spawns": r["spawns"][:4], "bindings": {k: v for k, v in r["ns"].items() if k != "g"} | {"g": {k: v for k, v in r["ns"]["g"].items() if k in ("n", "_")}}}
+
+
+def eval_hist_steps(steps, sep):
+    """clause (h): every input of the history is judged against the bindings that exist when it is
+    compiled: name bound somewhere (builtins / globals / locals) -> clauses (a)+(b) against CPython
+    run in lock-step; name unbound -> tree and spawn of the explicit ![...] spelling."""
+    ref = _run_seq(steps, sep, "ref")
+    got = _run_seq(steps, sep, "xonsh")
+    expl = _run_seq(steps, sep, "xonsh-explicit") if any(st[0] == "src" and st[2] == "cmd" for st in steps) else None
+    checked = 0
+    for k, st in enumerate(steps):
+        if st[0] != "src":
+            continue
+        _, text, expect, _e = st
+        g = got[k]
+        sig = obs = None
+        if expect == "py":
+            r = ref[k]
+            if r["exc"] in ("NameError", "UnboundLocalError"):
+                return {"status": "drop:precondition"}
+            exp_tree = ast.parse(text)
+            if g["tree"] is not None:
+                tree = _BuiltinCmdToName().visit(g["tree"])
+                if any(c.startswith("subproc_") for c in xonsh_calls(tree)):
+                    sig, obs = "py:cmd", _unparse(tree)
+                else:
+                    d = first_diff(tree, exp_tree)
+                    if d:
+                        try:
+                            cf_ok = first_diff(parse_ctx_free(text), exp_tree) is None
+                        except SyntaxError:
+                            cf_ok = False
+                        if not cf_ok:
+                            return {"status": "drop:c01"}
+                        sig, obs = "py:tree:" + d[0], d[1] + " | " + _unparse(tree)
+            if sig is None:
+                b = _cmp_exec(r, g)
+                if b is not None:
+                    sig, obs = "py:exec:" + b, "tree equal to ast.parse" if g["tree"] is not None else "no tree (compile raised)"
+            want = r
+            exp_t = _unparse(exp_tree)
+        else:
+            e = expl[k]
+            if e["tree"] is None:
+                return {"status": "drop:explicit-unparsable"}
+            if g["tree"] is None:
+                sig, obs = "cmd:reject", f"{g['exc']}"
+            else:
+                d = first_diff(g["tree"], e["tree"])
+                if d:
+                    still = not any(x.startswith("subproc_") for x in xonsh_calls(g["tree"]))
+                    sig, obs = ("cmd:still-python" if still else "cmd:tree:" + d[0]), _unparse(g["tree"])
+            if sig is None:
+                b = _cmp_exec(e, g, want_spawns=e["spawns"])
+                if b is None and not g["spawns"]:
+                    b = "nospawn"
+                if b is not None:
+                    sig, obs = "cmd:exec:" + b, "tree equal to explicit spelling"
+            want = e
+            exp_t = _unparse(e["tree"])
+        checked += 1
+        if sig is not None:
+            return {
+                "status": "viol",
+                "sig": sig,
+                "nontrivial": True,
+                "observed": {"step": k, "input": text, "expected_reading": expect, "tree": obs, "run": _brief_step(g)},
+                "expected": {"step": k, "tree": exp_t, "run": _brief_step(want)},
+            }
+    return {"status": "ok", "nontrivial": checked >= 2, "checked_inputs": checked}
+
+
 # ----------------------------------------------------------------------------- items, minimiser
 
 _CACHE = {}
@@ -577,8 +738,21 @@ def _eval_item(item):
     if item in _CACHE:
         return _CACHE[item]
     kind = item[0]
-    c = _coords(item[1])
     try:
+        if kind == "hi":
+            first, mode, events, u, f, name = item[1]
+            if first == "WC" and not _use_alone_ok({"u": u}):
+                raise S.NotApplicable("bare and explicit spelling differ without any binding (C03)")
+            steps, sep = S.hist_steps(first, mode, events, u, f, name)
+            if not _use_alone_ok({"u": u}):
+                steps = [st for st in steps if st[0] != "src" or st[2] != "cmd"]
+            r = eval_hist_steps(steps, sep)
+            r["case"] = {"clause": "hist", "steps": steps, "separate_locals": sep}
+            if len(_CACHE) > 200000:
+                _CACHE.clear()
+            _CACHE[item] = r
+            return r
+        c = _coords(item[1])
         if kind == "py":
             bt = S.build(c)
             r = eval_py_src(bt["src"], bt)
@@ -673,12 +847,66 @@ def _minimise(item, sig):
     return (kind, tuple(cur), *extra)
 
 
+def _minimise_hist(item, sig):
+    """smallest history with the same failure signature: plain name, warm-up only, harness-made
+    change, head focus, every shorter event sequence (shortest first), then the first use shape in
+    grammar order."""
+    first, mode, events, u, f, name = item[1]
+
+    def fails(t):
+        r = _eval_item(("hi", t))
+        return r["status"] == "viol" and r["sig"] == sig
+
+    cur = [first, mode, tuple(events), u, f, name]
+    changed = True
+    while changed:
+        changed = False
+        for idx, simple in ((5, "n"), (0, "W"), (1, "h"), (4, "head")):
+            if cur[idx] != simple:
+                t = list(cur)
+                t[idx] = simple
+                if fails(tuple(t)):
+                    cur, changed = t, True
+        for ev in S.histories(len(cur[2])):
+            if len(ev) >= len(cur[2]) and ev >= cur[2]:
+                break
+            t = list(cur)
+            t[2] = ev
+            if fails(tuple(t)):
+                cur, changed = t, True
+                break
+    for uu in S.USE_ORDER:
+        if uu == cur[3]:
+            break
+        t = list(cur)
+        t[3] = uu
+        if fails(tuple(t)):
+            cur = t
+            break
+    return ("hi", tuple(cur))
+
+
 def _check(item):
     """worker entry: -> (status, nontrivial, violation dict | None)"""
     r = _eval_item(item)
     st = r["status"]
     if st != "viol":
         return (st, bool(r.get("nontrivial")), None)
+    if item[0] == "hi":
+        small = _minimise_hist(item, r["sig"])
+        rs = _eval_item(small)
+        case = dict(rs["case"])
+        case["coords"] = {"first": small[1][0], "mode": small[1][1], "events": list(small[1][2]), "use": small[1][3], "focus": small[1][4], "name": small[1][5]}
+        case["first_seen_as"] = [list(x) if isinstance(x, tuple) else x for x in item[1]]
+        v = {
+            "key": f"{S.hist_label(*small[1])}#{rs['sig']}",
+            "clause": "each input of a session is decided by the bindings that exist when it is compiled",
+            "case": case,
+            "observed": rs["observed"],
+            "expected": rs["expected"],
+            "note": "",
+        }
+        return (st, True, v)
     small = _minimise(item, r["sig"])
     rs = _eval_item(small)
     c = _coords(small[1])
@@ -920,6 +1148,37 @@ def enumerate_items(thorough):
         for tail in S.TAIL_ORDER:
             for p in mid_progs:
                 add(("at", p, tail, "nl", "mid"))
+    # ---------------- clause (h): session histories
+    with _Slice("hist: history (<=%d binding changes in builtins/globals/locals) x {harness, source} x first input x use x focus x name" % (3 if thorough else 2)):
+        hs2 = S.histories(2)
+        hs3 = [h for h in S.histories(3) if len(h) == 3]
+
+        def firsts(u, both_firsts):
+            if not S.USES[u]["cmd"]:
+                return ("W",)
+            return ("W", "WC") if both_firsts else ("WC",)
+
+        for ev in hs2:
+            for mode in S.HIST_MODES:
+                for u in uses:
+                    for first in firsts(u, thorough or u in core):
+                        add(("hi", (first, mode, ev, u, "head", "n")))
+                for u in (uses if thorough else core):
+                    add(("hi", ("W", mode, ev, u, "arg", "n")))
+        for ev in (hs2 + hs3 if thorough else hs2):
+            if "+B" not in ev:
+                continue
+            for mode in S.HIST_MODES:
+                for u in core:
+                    for first in firsts(u, thorough):
+                        add(("hi", (first, mode, ev, u, "head", "_")))
+        if thorough:
+            for ev in hs3:
+                for mode in S.HIST_MODES:
+                    for u in core:
+                        for first in firsts(u, True):
+                            add(("hi", (first, mode, ev, u, "head", "n")))
+                        add(("hi", ("W", mode, ev, u, "arg", "n")))
     return items, slices
 
 
@@ -934,8 +1193,8 @@ def run(ctx):
     ctx.log(f"{len(items)} items: " + ", ".join(f"{k}={v}" for k, v in slices.items()))
     res = common.pmap(_check, items, ctx.jobs, chunk=64, init=_init_worker, seed=ctx.seed)
     counts = {}
-    nontrivial = {"py": 0, "del": 0, "at": 0}
-    reached = {"py": 0, "del": 0, "at": 0}
+    nontrivial = {"py": 0, "del": 0, "at": 0, "hi": 0}
+    reached = {"py": 0, "del": 0, "at": 0, "hi": 0}
     accepted_tails = {}
     syntax_tails = {}
     viols = []
@@ -959,7 +1218,7 @@ def run(ctx):
     for key, vs in per_key.items():
         vs[0]["note"] = f"{len(vs)} enumerated programs minimise to this key"
         ctx.add_violations(vs)
-    if not reached["py"] or not reached["del"] or not syntax_tails:
+    if not reached["py"] or not reached["del"] or not reached["hi"] or not syntax_tails:
         raise common.ToolError(f"a clause was never exercised: {reached} syntax-error tails={syntax_tails}")
     # evidence samples: real programs, one per clause / interesting corner
     for c, extra in (
@@ -972,7 +1231,13 @@ def run(ctx):
         (dict(b="assign", u="gt", o="c"), ("del", "del-multi")),
         (dict(b="assign", u="sub-flag"), ("at", "return-outside", "nl", "end")),
         (dict(b="def", u="bare"), ("at", "close-paren", "semi", "mid")),
+        (None, ("hi", ("WC", "h", ("+B", "-B"), "sub-flag", "head", "n"))),
+        (None, ("hi", ("W", "s", ("+L", "+B"), "and", "arg", "n"))),
     ):
+        if c is None:
+            steps, sep = S.hist_steps(*extra[1])
+            ctx.sample({"clause": "hist", "steps": steps, "separate_locals": sep, "result": _sample_status(items, res, extra)})
+            continue
         t = S.coords_key(c)
         try:
             if extra is None:
@@ -995,10 +1260,12 @@ def run(ctx):
         rule=(
             f"every program of the product BINDERS({len(S.BINDER_ORDER)}) x USES({len(S.USE_ORDER)}) x PLACEMENTS (def/class nesting of binder "
             f"and use to total depth {depth}, {len(S.WRAP_ORDER)} statement wrappers, {len(S.MID_ORDER)} interludes, head/arg focus, binder pairs) in the slices "
-            f"listed under `slices`, plus {len(S.DEL_ORDER)} del forms and {len(S.TAIL_ORDER)} broken tails x 2 separators x 2 positions; "
+            f"listed under `slices`, plus {len(S.DEL_ORDER)} del forms, {len(S.TAIL_ORDER)} broken tails x 2 separators x 2 positions and session histories "
+            f"(every valid sequence of <= {3 if ctx.thorough else 2} add/remove events of the name in builtins / session globals / exec locals, made by the harness or by an input, "
+            "use re-submitted after every event, after a non-trivial warm-up input and optionally a first use while still unbound); "
             "evaluations = distinct programs that reached an oracle comparison (CPython accepted and ran them without NameError; for atomic: "
             "xonsh raised SyntaxError); non-trivial = those whose CPython run logged at least one operation on an instrumented object "
-            "(py), whose name CPython reports deleted at the use line (del), or whose input raised SyntaxError (atomic)"
+            "(py), whose name CPython reports deleted at the use line (del), whose input raised SyntaxError (atomic), or histories with >= 2 judged inputs (hist)"
         ),
         exhaustive=slow == 0,
         caps_hit={"cpu_limit_s": CPU_LIMIT_S, "atomic_inputs_cut_by_cpu_limit": slow},
@@ -1010,7 +1277,7 @@ def run(ctx):
         dropped=drops,
         tails_raising_syntaxerror=dict(sorted(syntax_tails.items())),
         tails_accepted_as_commands=dict(sorted(accepted_tails.items())),
-        bounds={"scope_depth": depth, "names_read": 3, "binders": len(S.BINDER_ORDER), "uses": len(S.USE_ORDER), "wrappers": len(S.WRAP_ORDER), "interludes": len(S.MID_ORDER), "del_forms": len(S.DEL_ORDER), "tails": len(S.TAIL_ORDER)},
+        bounds={"history_events": 3 if ctx.thorough else 2, "scope_depth": depth, "names_read": 3, "binders": len(S.BINDER_ORDER), "uses": len(S.USE_ORDER), "wrappers": len(S.WRAP_ORDER), "interludes": len(S.MID_ORDER), "del_forms": len(S.DEL_ORDER), "tails": len(S.TAIL_ORDER)},
         distinct_violation_keys=len(per_key),
     )
     ctx.assumptions += [
@@ -1035,13 +1302,24 @@ def replay(rec):
     tables.ensure_tables(completion=False)
     _init_worker()
     case = rec["case"]
-    sess = {"globals": case["globals"], "locals": case["locals"]}
     print("key     :", rec.get("key"))
-    print("source  :")
-    for ln in case["src"].splitlines():
-        print("    " + ln)
-    print("session : globals", sess["globals"], "locals", sess["locals"], "(+ mk, XE, XC, ident, q, xs, xt)")
-    if case["clause"] == "py":
+    if case["clause"] == "hist":
+        print("history : one session, separate locals mapping:", case["separate_locals"])
+        for k, st in enumerate(case["steps"]):
+            if st[0] == "src":
+                print(f"  [{k}] input (expected reading: {st[2]}): {st[1]!r}")
+            else:
+                print(f"  [{k}] harness: {st[0]} {st[2]!r} in {dict(B='builtins', G='session globals', L='exec locals')[st[1]]}")
+        sess = None
+    else:
+        sess = {"globals": case["globals"], "locals": case["locals"]}
+        print("source  :")
+        for ln in case["src"].splitlines():
+            print("    " + ln)
+        print("session : globals", sess["globals"], "locals", sess["locals"], "(+ mk, XE, XC, ident, q, xs, xt)")
+    if case["clause"] == "hist":
+        r = eval_hist_steps(case["steps"], case["separate_locals"])
+    elif case["clause"] == "py":
         r = eval_py_src(case["src"], sess)
     elif case["clause"] == "del":
         print("explicit:")
